@@ -3,6 +3,7 @@
 //! series, (2) amplified families (chain / diamond / fan-in / fan-out) with call sites in every
 //! placement context, (3) type families; plus black-box wall-clock runs in child processes.
 use crate::common::*;
+use std::collections::BTreeSet;
 use crate::progs::*;
 use serde_json::json;
 use std::cell::Cell;
@@ -500,13 +501,31 @@ pub fn scale_family(kind: &str, n: usize) -> Shape {
     Shape { key: format!("scale|{kind}|n={n}"), src, e, f, c, g, t, m, helpers_reachable: false }
 }
 
+/// Members found violating in this run; past 64 the remaining members are not run (each violating member may cost
+/// seconds and gigabytes - the verdict is clear, and the run must end).
+pub static VIOLATING_MEMBERS: std::sync::atomic::AtomicU64 = std::sync::atomic::AtomicU64::new(0);
+
 pub fn check(s: &Shape, rep: &mut Report) {
+    if VIOLATING_MEMBERS.load(std::sync::atomic::Ordering::Relaxed) >= 64 {
+        rep.count("members not run: 64 members already violated in this run");
+        return;
+    }
+    let before = rep.violations.len();
+    check_inner(s, rep);
+    if rep.violations.len() > before {
+        VIOLATING_MEMBERS.fetch_add(1, std::sync::atomic::Ordering::Relaxed);
+    }
+}
+
+fn check_inner(s: &Shape, rep: &mut Report) {
     rep.states += 1;
     rep.transitions += s.f + s.c + s.t + s.m;
     let t_ref = thread_cpu_seconds();
+    let m_ref = crate::memcount::start();
     let naga_result = naga_check(&s.src);
-    // same-size reference measured in the same thread: naga's own parse + validation (thread CPU time)
+    // same-size reference measured in the same thread: naga's own parse + validation (thread CPU time, peak bytes)
     let naga_s = thread_cpu_seconds() - t_ref;
+    let naga_peak = crate::memcount::peak_above(m_ref);
     let blocks = match &naga_result {
         Ok((m, _)) => count_blocks(m),
         Err(e) => {
@@ -526,9 +545,18 @@ pub fn check(s: &Shape, rep: &mut Report) {
     FN_BUDGET.with(|b| b.set(s.fn_bound()));
     TY_BUDGET.with(|b| b.set(s.ty_bound()));
     rep.evaluations += 1;
+    if std::env::var("VERIF_DEBUG").is_ok() {
+        eprintln!("C20 start {}", s.key);
+    }
     let t0 = thread_cpu_seconds();
+    let m0 = crate::memcount::start();
     let out = generate(&s.src, &Config::default());
     let wall = thread_cpu_seconds() - t0;
+    let peak = crate::memcount::peak_above(m0);
+    let peak_limit = (32 * naga_peak).max(16 << 20);
+    if std::env::var("VERIF_DEBUG").is_ok() {
+        eprintln!("C20 done {} {wall:.2}s {} KiB", s.key, peak >> 10);
+    }
     FN_BUDGET.with(|b| b.set(u64::MAX));
     TY_BUDGET.with(|b| b.set(u64::MAX));
     BLK_BUDGET.with(|b| b.set(u64::MAX));
@@ -536,7 +564,7 @@ pub fn check(s: &Shape, rep: &mut Report) {
     let fv = FN_VISITS.with(|c| c.get());
     let tv = TY_VISITS.with(|c| c.get());
     rep.nontrivial.insert(hash64(&s.src));
-    let detail = json!({"wgsl": s.src, "config": Config::default().key(), "function_visits": fv, "function_bound": s.fn_bound(), "type_visits": tv, "type_bound": s.ty_bound(), "block_visits": bv, "block_bound": blk_bound, "blocks": blocks, "wall_s": wall,
+    let detail = json!({"wgsl": s.src, "config": Config::default().key(), "function_visits": fv, "function_bound": s.fn_bound(), "type_visits": tv, "type_bound": s.ty_bound(), "block_visits": bv, "block_bound": blk_bound, "blocks": blocks, "wall_s": wall, "peak_bytes": peak, "peak_limit_bytes": peak_limit, "naga_peak_bytes": naga_peak,
         "sizes": {"entries": s.e, "functions": s.f, "call_sites": s.c, "globals": s.g, "types": s.t, "type_edges": s.m}});
     match &out {
         Outcome::Panic(m) if m.contains("VERIF step budget exceeded (walk:function)") => {
@@ -555,8 +583,12 @@ pub fn check(s: &Shape, rep: &mut Report) {
             rep.outcomes.insert(format!("ok fn<= {} ty<= {}", fv.next_power_of_two(), tv.next_power_of_two()));
             let limit = (50.0 * naga_s).max(2.0);
             if wall > limit {
-                rep.violation(s.key.clone(), format!("generation took {wall:.1}s of CPU time in-process (limit {limit:.1}s = max(2 s, 50 x naga's own parse+validate of the same source)) within step budgets"), detail);
+                rep.violation(s.key.clone(), format!("generation took {wall:.1}s of CPU time in-process (limit {limit:.1}s = max(2 s, 50 x naga's own parse+validate of the same source)) within step budgets"), detail.clone());
             }
+            if peak > peak_limit {
+                rep.violation(s.key.clone(), format!("generation allocated {} MiB at its high-water mark (limit {} MiB = max(16 MiB, 32 x naga's own peak for parse+validate of the same source)) within step budgets", peak >> 20, peak_limit >> 20), detail.clone());
+            }
+            rep.count(&format!("peak allocation <= {} KiB", (peak >> 10).max(1).next_power_of_two()));
             if s.key.starts_with("scale|") {
                 rep.count(&format!("scale family wall ms <= {}", ((wall * 1000.0) as u64).next_power_of_two()));
             }
@@ -673,12 +705,17 @@ pub fn space(thorough: bool) -> Vec<Shape> {
         let edges = k * (k - 1) / 2;
         for choice in wgslgen::sequences(n_opts, edges) {
             // k=4: restrict to tiles with at most 4 non-empty edges of the 6 (bounds the product; all 3-node tiles are complete)
-            let key = format!("tile|k={k}|edges={}", choice.iter().map(|c| c.to_string()).collect::<String>());
-            out.push(tile_program(k, &choice, if thorough { 16 } else { 8 }, key));
+            // composed 1x, 2x, 3x, ... in series: one round per length (see run), so that a tile whose cost multiplies
+            // per repetition is reported at the shortest length that shows it
+            for reps in 1..=(if thorough { 12 } else { 5 }) {
+                let key = format!("tile|k={k}|edges={}|n={reps}", choice.iter().map(|c| c.to_string()).collect::<String>());
+                out.push(tile_program(k, &choice, reps, key));
+            }
         }
     }
     // families
-    let depths: &[usize] = if thorough { &[8, 16, 32, 64] } else { &[16, 64] };
+    // sizes are explored in ascending rounds (see run): a family that violates at a small size is not run at larger ones
+    let depths: &[usize] = &[4, 8, 12, 16, 20, 24, 28, 32, 48, 64];
     for kind in ["chain", "diamond", "fanin", "fanout"] {
         for &d in depths {
             for form in CallForm::ALL {
@@ -695,7 +732,7 @@ pub fn space(thorough: bool) -> Vec<Shape> {
     }
     // statement shapes inside one function: the walk over blocks must be linear in the number of blocks however
     // they nest (else-if chains lower to an `if` nested in the reject block, `for` to loop+if+break, ...)
-    let stmt_sizes: &[usize] = if thorough { &[4, 16, 32, 48, 60] } else { &[4, 24, 48] };
+    let stmt_sizes: &[usize] = if thorough { &[4, 8, 12, 16, 24, 32, 48, 60] } else { &[4, 12, 24, 48] };
     for kind in STMT_KINDS {
         for &n in stmt_sizes {
             for stages in [&[Stage::C][..], &[Stage::V, Stage::F, Stage::C][..]] {
@@ -711,7 +748,7 @@ pub fn space(thorough: bool) -> Vec<Shape> {
         }
     }
     // type families
-    for d in if thorough { vec![4, 8, 12, 15, 24, 40] } else { vec![8, 15, 24] } {
+    for d in if thorough { vec![4, 8, 12, 15, 20, 24, 40] } else { vec![4, 8, 12, 15, 24] } {
         for vars in [1, 3, 8] {
             out.push(type_family("nested2", d, vars));
             out.push(type_family("nested3-array", d, vars));
@@ -810,14 +847,47 @@ pub fn child(kind: &str, depth: usize) -> i32 {
     0
 }
 
+/// Children run under an 8 GiB address-space limit: a call whose memory grows without bound dies there (allocation
+/// failure aborts) instead of exhausting the machine.
+fn limit_address_space(cmd: &mut std::process::Command) {
+    use std::os::unix::process::CommandExt;
+    unsafe {
+        cmd.pre_exec(|| {
+            let lim = libc::rlimit { rlim_cur: 8 << 30, rlim_max: 8 << 30 };
+            libc::setrlimit(libc::RLIMIT_AS, &lim);
+            Ok(())
+        });
+    }
+}
+
+/// `family|chain|depth=16|form=Let|..` -> (`family|chain|form=Let|..`, 16); keys without a size have rank 0.
+pub fn family_and_rank(key: &str) -> (String, usize) {
+    let mut rank = 0usize;
+    let mut rest = vec![];
+    for part in key.split('|') {
+        match part.strip_prefix("depth=").or_else(|| part.strip_prefix("n=")).and_then(|v| v.parse::<usize>().ok()) {
+            Some(v) if rank == 0 => rank = v,
+            _ => rest.push(part),
+        }
+    }
+    // the family is the kind of growth, not the placement: for call-graph families the kind and the call form, for
+    // type / statement families the kind; a tile is its own family
+    let fam = match rest.first().copied() {
+        Some("family") => rest.iter().filter(|p| !p.starts_with("ctx=") && !p.starts_with("entries=")).copied().collect::<Vec<_>>().join("|"),
+        Some("types") | Some("stmt") => rest.iter().take(2).copied().collect::<Vec<_>>().join("|"),
+        _ => rest.join("|"),
+    };
+    (fam, rank)
+}
+
 fn run_child_raw(kind: &str, depth: usize, timeout_s: u64) -> Result<String, String> {
     let exe = std::env::current_exe().unwrap();
-    let mut ch = std::process::Command::new(exe)
-        .args(["c20-child", kind, &depth.to_string()])
+    let mut ch = std::process::Command::new(exe);
+    ch.args(["c20-child", kind, &depth.to_string()])
         .stdout(std::process::Stdio::piped())
-        .stderr(std::process::Stdio::null())
-        .spawn()
-        .map_err(|e| e.to_string())?;
+        .stderr(std::process::Stdio::null());
+    limit_address_space(&mut ch);
+    let mut ch = ch.spawn().map_err(|e| e.to_string())?;
     let t0 = std::time::Instant::now();
     loop {
         match ch.try_wait() {
@@ -834,6 +904,9 @@ fn run_child_raw(kind: &str, depth: usize, timeout_s: u64) -> Result<String, Str
         }
     }
     let out = ch.wait_with_output().map_err(|e| e.to_string())?;
+    if let Some(sig) = std::os::unix::process::ExitStatusExt::signal(&out.status) {
+        return Err(format!("terminated by signal {sig}"));
+    }
     let s = String::from_utf8_lossy(&out.stdout).trim().to_string();
     if s.is_empty() {
         return Err("no output from child".into());
@@ -843,12 +916,12 @@ fn run_child_raw(kind: &str, depth: usize, timeout_s: u64) -> Result<String, Str
 
 fn run_child(kind: &str, depth: usize, timeout_s: u64) -> Result<f64, String> {
     let exe = std::env::current_exe().unwrap();
-    let mut ch = std::process::Command::new(exe)
-        .args(["c20-child", kind, &depth.to_string()])
+    let mut ch = std::process::Command::new(exe);
+    ch.args(["c20-child", kind, &depth.to_string()])
         .stdout(std::process::Stdio::piped())
-        .stderr(std::process::Stdio::null())
-        .spawn()
-        .map_err(|e| e.to_string())?;
+        .stderr(std::process::Stdio::null());
+    limit_address_space(&mut ch);
+    let mut ch = ch.spawn().map_err(|e| e.to_string())?;
     let t0 = std::time::Instant::now();
     loop {
         match ch.try_wait() {
@@ -865,6 +938,9 @@ fn run_child(kind: &str, depth: usize, timeout_s: u64) -> Result<f64, String> {
         }
     }
     let out = ch.wait_with_output().map_err(|e| e.to_string())?;
+    if let Some(sig) = std::os::unix::process::ExitStatusExt::signal(&out.status) {
+        return Err(format!("terminated by signal {sig}"));
+    }
     let s = String::from_utf8_lossy(&out.stdout);
     let mut it = s.split_whitespace();
     let ok = it.next().unwrap_or("0");
@@ -880,11 +956,32 @@ pub fn run(tier: &str) -> i32 {
     let mut rep = Report::new("C20", tier);
     let thorough = rep.thorough();
     let shapes = space(thorough);
-    let results = par_map(&shapes, |s| {
-        let mut r = Report::new("C20", tier);
-        check(s, &mut r);
-        r
-    });
+    // bound iteration: members are run in rounds of ascending size; once a family (the key without its size) has a
+    // violation, its larger members are not run - an exponential section is reported at the smallest size that shows
+    // it, before a larger member can exhaust the machine
+    let ranked: Vec<(String, usize)> = shapes.iter().map(|s| family_and_rank(&s.key)).collect();
+    let ranks: BTreeSet<usize> = ranked.iter().map(|(_, r)| *r).collect();
+    let mut stopped: BTreeSet<String> = BTreeSet::new();
+    let mut results = vec![];
+    for rank in &ranks {
+        let round: Vec<usize> = (0..shapes.len()).filter(|i| ranked[*i].1 == *rank).collect();
+        let (run_now, skipped): (Vec<usize>, Vec<usize>) = round.into_iter().partition(|i| !stopped.contains(&ranked[*i].0));
+        for _ in &skipped {
+            rep.count("members not run: their family already violated at a smaller size");
+        }
+        let rs = par_map(&run_now, |i| {
+            let mut r = Report::new("C20", tier);
+            check(&shapes[*i], &mut r);
+            r
+        });
+        for (i, r) in run_now.iter().zip(rs.into_iter()) {
+            if !r.violations.is_empty() {
+                stopped.insert(ranked[*i].0.clone());
+            }
+            results.push(r);
+        }
+    }
+    rep.set("size_rounds", json!(ranks.iter().collect::<Vec<_>>()));
     for (i, s) in shapes.iter().enumerate() {
         if i % (shapes.len() / 4 + 1) == 5 {
             rep.sample(json!({"key": s.key, "wgsl_head": s.src.chars().take(600).collect::<String>(), "fn_bound": s.fn_bound(), "ty_bound": s.ty_bound()}));
@@ -900,6 +997,10 @@ pub fn run(tier: &str) -> i32 {
     for kind in ["chain", "diamond", "fanin", "nested2"] {
         for &d in depths {
             let d = if kind == "nested2" { d.min(40) } else { d };
+            if stopped.iter().any(|f| f.contains(&format!("|{kind}|"))) {
+                rep.count("child runs skipped: the family already violated in-process at a smaller size");
+                continue;
+            }
             let nfun = match kind { "diamond" => 2 * d + 2, _ => d + 1 };
             let flat = run_child("flat", nfun, 30).unwrap_or(0.05);
             let limit = (200.0 * flat).max(2.0);
@@ -919,6 +1020,9 @@ pub fn run(tier: &str) -> i32 {
                 }
                 Err(e) if e.starts_with("timeout") => {
                     rep.violation(format!("wallclock|{kind}|depth={d}"), format!("did not finish within {limit:.1}s (flat reference {flat:.4}s)"), json!({"family": kind, "depth": d}));
+                }
+                Err(e) if e.starts_with("terminated by signal") => {
+                    rep.violation(format!("wallclock|{kind}|depth={d}"), format!("the process running the call was {e} under an 8 GiB address-space limit (the flat reference of the same size finished in {flat:.4}s)"), json!({"family": kind, "depth": d}));
                 }
                 Err(e) => machinery(&format!("C20 child failed: {e}")),
             }
@@ -952,16 +1056,18 @@ pub fn run(tier: &str) -> i32 {
                 }
             }
             Err(e) if e.starts_with("timeout") => rep.violation(key, "did not finish within 20 s (naga itself needs milliseconds for this shader)".to_string(), json!({"family": kind, "n": n})),
+            Err(e) if e.starts_with("terminated by signal") => rep.violation(key, format!("the process running the call was {e} under an 8 GiB address-space limit"), json!({"family": kind, "n": n})),
             Err(e) => machinery(&format!("C20 scale child failed: {e}")),
         }
     }
-    if scale_report.len() + 3 < scs.len() {
-        machinery(&format!("C20: only {} of {} scale family members were accepted by naga and the generator (families built wrongly?)", scale_report.len(), scs.len()));
+    let refused = rep.filtered_out.get("scale family: naga rejects the shader").copied().unwrap_or(0) + rep.filtered_out.get("scale family: generator not Ok").copied().unwrap_or(0);
+    if refused > 3 {
+        machinery(&format!("C20: {refused} of {} scale family members were refused by naga or the generator (families built wrongly?)", scs.len()));
     }
     rep.set("scale_families", json!(scale_report));
     rep.set("wall_clock_children", json!(wall));
     rep.traces_validated = rep.evaluations;
-    rep.rule = format!("(1) every tile: DAG on <= {} helpers with each forward edge in {{absent, 1 statement call, 1 value call, 2 statement calls, 2 value calls, 1+1 mixed}}, composed {}x in series; (2) chain / diamond / 3-fold fan-in / fan-out families at depths {:?} with every call form at every placement context, plus 4-entry and 290-function members; (3) nested two-/three-member struct types to depth 24/40, wide structs, many variables sharing one type; (3b) statement shapes in one function (else-if chains, nested if / else / loop / for / switch / blocks, mixed) at sizes up to 60 under 1 and 3 entry points, block visits <= 8*E*(B+1) from the walk:block hook; (3c) ladders 40 levels deep under one entry with a push constant / binding that only another entry uses; (3d) override / const initialisers forming a 48-level diamond that sizes a workgroup and an array; (3e) group / binding indices up to u32::MAX; (3f) the large size families again with the formatter on (outputs far above the 64 KiB pipe buffer; wall-clock cap 20 s); (4) size families: up to 1000 bindings / 1000 members / 300 structs / 64 vertex entries x 12 structs / 200 entry points sharing helpers / 300 consts+overrides / arrays nested 16 deep (two elements per level) and 60 deep (one element per level), each under max(2 s, 50 x naga) of thread CPU time. Oracle: walk:function visits <= 8*E*(F+C+1), walk:type visits <= 8*G*(T+M+1) (hook aborts at the budget); CPU time of amplified members in child processes <= max(2 s, 200 x same-size flat shader), with a 20-30 s wall-clock cap that only a hang can reach.", 4, if thorough { 16 } else { 8 }, if thorough { vec![8, 16, 32, 64] } else { vec![16, 64] });
+    rep.rule = format!("(1) every tile: DAG on <= {} helpers with each forward edge in {{absent, 1 statement call, 1 value call, 2 statement calls, 2 value calls, 1+1 mixed}}, composed 1x..{}x in series; (2) chain / diamond / 3-fold fan-in / fan-out families at depths {:?} with every call form at every placement context, plus 4-entry and 290-function members; (3) nested two-/three-member struct types to depth 24/40, wide structs, many variables sharing one type; (3b) statement shapes in one function (else-if chains, nested if / else / loop / for / switch / blocks, mixed) at sizes up to 60 under 1 and 3 entry points, block visits <= 8*E*(B+1) from the walk:block hook; (3c) ladders 40 levels deep under one entry with a push constant / binding that only another entry uses; (3d) override / const initialisers forming a 48-level diamond that sizes a workgroup and an array; (3e) group / binding indices up to u32::MAX; (3f) the large size families again with the formatter on (outputs far above the 64 KiB pipe buffer; wall-clock cap 20 s); (4) size families: up to 1000 bindings / 1000 members / 300 structs / 64 vertex entries x 12 structs / 200 entry points sharing helpers / 300 consts+overrides / arrays nested 16 deep (two elements per level) and 60 deep (one element per level), each under max(2 s, 50 x naga) of thread CPU time. Members run in rounds of ascending size; a family that violates is not run at larger sizes. Oracle: peak bytes allocated by the call on its thread (counting allocator) <= max(16 MiB, 32 x naga's peak on the same source); walk:function visits <= 8*E*(F+C+1), walk:type visits <= 8*G*(T+M+1) (hook aborts at the budget); CPU time of amplified members in child processes <= max(2 s, 200 x same-size flat shader), with a 20-30 s wall-clock cap that only a hang can reach.", 4, if thorough { 12 } else { 5 }, vec![4, 8, 12, 16, 20, 24, 28, 32, 48, 64]);
     rep.assumptions.push("step counts come from the verif-hooks points at the top of the two recursive walks; if a refactor removes them the wall-clock part decides alone".into());
     rep.finish()
 }
